@@ -347,3 +347,11 @@ def annotated_po(p0: typing.Annotated[typing.Any, _vt.TagB] = 'd_p0', /,
                  a: typing.Annotated[typing.Any, _vt.TagX] = None, *args,
                  k: typing.Annotated[typing.Any, _vt.TagA] = 'd_k', **kw):
   return record('annotated_po', {'p0': p0, 'a': a, 'k': k}, args, kw)
+
+
+_SINGLE_DEFAULT = ['single-default']
+
+
+def mutdef1(a=_SINGLE_DEFAULT, c=(1, 2), other=None):
+  """One mutable default, not shared with any other parameter."""
+  return record('mutdef1', {'a': a, 'c': c, 'other': other})
